@@ -29,7 +29,7 @@ var c06 = core.Register(&core.Prop{
 	Shards: func(tier string) int { return pickTier(tier, 4, 16) },
 	Floors: func(c map[string]int64, tier string) []string {
 		var out []string
-		for _, k := range []string{"op:not", "op:notnot", "op:cond", "op:and", "op:or", "op:nn", "branch_effect_cases", "identity_checked", "nested_cases", "dead_branch_cases"} {
+		for _, k := range []string{"op:not", "op:notnot", "op:cond", "op:and", "op:or", "op:nn", "branch_effect_cases", "identity_checked", "nested_cases", "dead_branch_cases", "same_runner_repeats"} {
 			if c[k] == 0 {
 				out = append(out, "coverage floor: no "+k)
 			}
@@ -45,6 +45,38 @@ type tLeaf struct {
 	Null   bool
 	NotOK  bool // boolean, number or null: '!x' is specified
 	Ident  bool // data container / function / time: identity must be preserved
+}
+
+// numbers produced by coercions the statements do not define (unary + / - on strings): their truthiness is
+// derived from the value the leaf itself evaluates to (zero and NaN falsy); if the leaf alone is an error the
+// case is skipped. Resolved once per process by initDerivedLeaves.
+var derivedLeaves = []string{"(+'0')", "(-'0')", "(+'abc')", "(+'7')", "(-'3')", "(+'')", "toFloat('x')", "toFloat('0')", "toInt('0.4')", "(0 * toFloat('5'))", "len('')", "find('a', 'b') + 1"}
+
+var derivedDone = false
+
+func initDerivedLeaves() {
+	if derivedDone {
+		return
+	}
+	derivedDone = true
+	var log []string
+	data := c06Data(&log)
+	for _, src := range derivedLeaves {
+		v, err, p, _ := resolveIn(data, "["+src+"]")
+		if p || err != nil {
+			continue
+		}
+		arr, _ := v.([]interface{})
+		if len(arr) != 1 {
+			continue
+		}
+		d, ok := arr[0].(*decimal.Big)
+		if !ok || d == nil {
+			continue
+		}
+		truthy := !d.IsNaN(0) && d.Sign() != 0
+		tLeaves = append(tLeaves, tLeaf{src, truthy, false, true, false})
+	}
 }
 
 var tLeaves = []tLeaf{
@@ -189,6 +221,11 @@ func resolveIn(data map[string]interface{}, src string) (interface{}, error, boo
 	var v interface{}
 	var rerr error
 	p, pv := core.Call(func() { v, rerr = r.Resolve(context.Background(), sc.Expression) })
+	if !p && rerr == nil {
+		if e2 := secondEvaluation(sc, src, context.Background(), data, outcome(v, nil, false, nil)); e2 != nil {
+			return nil, e2, false, nil
+		}
+	}
 	return v, rerr, p, pv
 }
 
@@ -207,6 +244,7 @@ func samePointer(a, b interface{}) bool {
 }
 
 var c06Select = core.Mon(c06, "selection", func(w *core.W, n *TNode) {
+	initDerivedLeaves()
 	w.Eval(1)
 	m := n.model()
 	src := n.Src()
@@ -321,6 +359,7 @@ func (c *EffectCase) build() (src string, selected string, all []string) {
 }
 
 var c06Effects = core.Mon(c06, "single-branch", func(w *core.W, c *EffectCase) {
+	initDerivedLeaves()
 	w.Eval(1)
 	src, sel, all := c.build()
 	var log []string
@@ -360,6 +399,7 @@ type DeadBranchCase struct {
 var deadBranches = []string{"missingfn(1)", "missing.fn(2)", "null!.k", "abs('x')", "abs()", "a = 1", "[1] == [1]", "dm == dm", "left('abc', -1)", "regexp('a', '(')", "dst.Nope", "dfn(1, 2)", "1()", "rec()", "(missingfn(1), 2)", "[missingfn(1)]", "-missingfn(1)", "true ? missingfn(1) : 0"}
 
 var c06Dead = core.Mon(c06, "dead-branch", func(w *core.W, c *DeadBranchCase) {
+	initDerivedLeaves()
 	w.Eval(1)
 	cond, live := tLeaves[c.Cond], tLeaves[c.Live]
 	var src string
@@ -381,6 +421,85 @@ var c06Dead = core.Mon(c06, "dead-branch", func(w *core.W, c *DeadBranchCase) {
 	if obs.SnapshotValues(v) != obs.SnapshotValues(ev) && !live.Ident {
 		w.Violation("dead-branch", "C06/cond:value", c, show(ev), show(v), src)
 	}
+})
+
+// RepeatCase: one parsed formula whose condition is a host call, evaluated several times on ONE runner while
+// the call's result changes from evaluation to evaluation.
+type RepeatCase struct {
+	Form   string `json:"form"`   // cond and or nn not notnot
+	Script []int  `json:"script"` // leaf indexes the call returns, one per evaluation
+}
+
+var c06Repeat = core.Mon(c06, "same-runner-repeat", func(w *core.W, c *RepeatCase) {
+	initDerivedLeaves()
+	var log []string
+	data := c06Data(&log)
+	step := 0
+	var vals []interface{}
+	for _, li := range c.Script {
+		v, err, p, _ := resolveIn(data, "["+tLeaves[li].Src+"]")
+		if p || err != nil {
+			w.Skip("leaf-not-evaluable")
+			return
+		}
+		vals = append(vals, v.([]interface{})[0])
+	}
+	data["flag"] = func() (interface{}, error) {
+		v := vals[step%len(vals)]
+		return v, nil
+	}
+	src := map[string]string{"cond": "flag() ? 'yes' : 'no'", "and": "flag() && 'rhs'", "or": "flag() || 'rhs'", "nn": "flag() ?? 'rhs'", "not": "!flag()", "notnot": "!!flag()", "condcall": "(flag() ? 1 : 0) + (flag() ? 10 : 20)"}[c.Form]
+	sc, err := formula.ParseSourceCode([]byte(src))
+	if err != nil {
+		return
+	}
+	r := formula.NewRunner()
+	r.SetThis(data)
+	for step = 0; step < len(c.Script); step++ {
+		leaf := tLeaves[c.Script[step]]
+		var v interface{}
+		var rerr error
+		w.Eval(1)
+		p, pv := core.Call(func() { v, rerr = r.Resolve(context.Background(), sc.Expression) })
+		w.Count("same_runner_repeats")
+		var want interface{}
+		switch c.Form {
+		case "cond":
+			want = map[bool]string{true: "yes", false: "no"}[leaf.Truthy]
+		case "and":
+			if leaf.Truthy {
+				want = "rhs"
+			} else {
+				want = nil // the operand itself; compared below
+			}
+		case "or":
+			if !leaf.Truthy {
+				want = "rhs"
+			}
+		case "nn":
+			if leaf.Null {
+				want = "rhs"
+			}
+		case "not":
+			if !leaf.NotOK {
+				continue
+			}
+			want = !leaf.Truthy
+		case "notnot":
+			want = leaf.Truthy
+		case "condcall":
+			want = map[bool]float64{true: 11, false: 20}[leaf.Truthy]
+		}
+		if p || rerr != nil {
+			w.Violation("same-runner-repeat", "C06/repeat-error", c, want, fmt.Sprint(pv, rerr), fmt.Sprintf("evaluation %d of %q on one runner with flag() = %s", step+1, src, leaf.Src))
+			return
+		}
+		if want != nil && v != want {
+			w.Violation("same-runner-repeat", "C06/stale-selection", c, want, show(v), fmt.Sprintf("evaluation %d of %q on one runner: flag() now returns %s", step+1, src, leaf.Src))
+			return
+		}
+	}
+	w.Nontrivial(fmt.Sprint("repeat", c.Form, c.Script))
 })
 
 func randTNode(r *rand.Rand, depth int) *TNode {
@@ -406,6 +525,7 @@ func randTNode(r *rand.Rand, depth int) *TNode {
 func init() { c06.Run = runC06 }
 
 func runC06(w *core.W) {
+	initDerivedLeaves()
 	leaf := func(i int) *TNode { return &TNode{K: "leaf", I: i} }
 	idx := 0
 	// depth 1, exhaustive
@@ -454,6 +574,15 @@ func runC06(w *core.W) {
 				c06Dead(w, &DeadBranchCase{Cond: i, Live: (i*7 + j) % len(tLeaves), Dead: d})
 			}
 		}
+	}
+	// the same parsed formula on one runner while the condition's value changes
+	rr := w.RNG("repeat")
+	for i, n := 0, w.Pick(3000, 40000); i < n; i++ {
+		c := &RepeatCase{Form: []string{"cond", "and", "or", "nn", "not", "notnot", "condcall"}[i%7]}
+		for k := 2 + rr.Intn(4); k > 0; k-- {
+			c.Script = append(c.Script, rr.Intn(len(tLeaves)))
+		}
+		c06Repeat(w, c)
 	}
 	// single-branch evaluation
 	shapes := []string{"c(L,L)", "c(c(L,L),L)", "c(L,c(L,L))", "c(c(L,L),c(L,L))"}
